@@ -202,6 +202,38 @@ def match_known(pid, suite_name, case, obs, clauses, known):
 # --------------------------------------------------------------------------- main decision
 
 
+def shrink(pid, suite_name, case, clause):
+    """Delta-debug a program case: drop calls (last to first) while the same clause tag of the oracle still fires."""
+    if not isinstance(case, dict) or not isinstance(case.get("ops"), list) or len(case["ops"]) <= 1:
+        return case, None
+    suite = load_suite(suite_name)
+    fn = getattr(suite, f"oracle_{pid}", None)
+    if fn is None:
+        return case, None
+    tag = clause.split(":")[0]
+
+    def fails(c):
+        o = core.run_impl(suite.module, [c])[0]
+        if "harness_error" in o or o.get("drop"):
+            return None
+        hits = [b for b in fn(c, o) if b.split(":")[0] == tag]
+        return (o, hits[0]) if hits else None
+
+    cur = dict(case)
+    best = None
+    i = len(cur["ops"]) - 1
+    budget = 40
+    while i >= 0 and budget > 0 and len(cur["ops"]) > 1:
+        budget -= 1
+        cand = dict(cur)
+        cand["ops"] = cur["ops"][:i] + cur["ops"][i + 1:]
+        r = fails(cand)
+        if r:
+            cur, best = cand, r
+        i -= 1
+    return (cur, best) if best else (case, None)
+
+
 def write_replay(pid, payload):
     d = VERIF / "replays"
     d.mkdir(exist_ok=True)
@@ -232,6 +264,17 @@ def decide(pid: str, tier: str, seed: int) -> int:
     if not po["ok"]:
         broken.append(f"Props/{pid}.v: {po['why'][-800:]}")
 
+    chk = None
+    if ok and po["ok"] and tier == "thorough":
+        try:
+            rc, cout, dt = core.run(["coqchk", "-silent", "-o", "-Q", str(COQ / "theories"), "Robo", f"Robo.Props.{pid}"], 3000, cwd=COQ)
+            tail = cout.strip().splitlines()
+            i0 = next((i for i, l in enumerate(tail) if "CONTEXT SUMMARY" in l), 0)
+            chk = {"rc": rc, "seconds": round(dt, 1), "summary": tail[i0:i0 + 40]}
+            if rc != 0:
+                broken.append(f"coqchk failed on Props/{pid}.vo: {cout[-600:]}")
+        except Exception as e:  # noqa
+            chk = {"rc": None, "error": str(e)[:300]}
     th = core.tree_hash()
     suites = {}
     if ok:
@@ -350,6 +393,7 @@ def decide(pid: str, tier: str, seed: int) -> int:
                 for s, r in suites.items()
             },
             "known_findings_reported": known_lines,
+            "coqchk": chk,
             "explanation": spec.get("explanation", ""),
         },
         "assumptions": spec.get("assumptions", []) + ["model fidelity is established by the correspondence suites on the cases listed, not proved"],
@@ -362,6 +406,16 @@ def decide(pid: str, tier: str, seed: int) -> int:
     for line in known_lines:
         print(line)
     if violations:
+        v0 = violations[0]
+        if v0["kind"] == "property-violation" and v0.get("suite"):
+            try:
+                small, res = shrink(pid, v0["suite"], v0["case"], v0["violated_clause"])
+                if res:
+                    v0["original_case"] = v0["case"]
+                    v0["case"], v0["impl_observation"], v0["violated_clause"] = small, res[0], res[1]
+                    v0["minimised"] = f"{len(v0['original_case']['ops'])} -> {len(small['ops'])} calls"
+            except Exception:
+                pass
         for v in violations[:1]:
             p = write_replay(pid, v)
             suffix = " no-failing-input-found" if v["kind"] == "no-failing-input-found" else ""
